@@ -1,2 +1,3 @@
 import EdzedProps.C01
+import EdzedProps.C07
 import EdzedProps.C20
